@@ -358,9 +358,7 @@ def adlerBytes (ab : Nat × Nat) : Bytes :=
 
 structure CState where
   hdrDone : Bool
-  pending : Bytes
   ad : Nat × Nat
-  finished : Bool
   ended : Bool
   deriving Repr
 
@@ -369,36 +367,36 @@ def MAX_BLOCK : Nat := 65535
 def blockHeader (final : Bool) (n : Nat) : Bytes :=
   [if final then 1 else 0, UInt8.ofNat n, UInt8.ofNat (n / 256), UInt8.ofNat (255 - n % 256), UInt8.ofNat (255 - n / 256)]
 
-/-- one call of the stored-block compressor: emit the zlib header on the first call, turn up to
-`MAX_BLOCK` bytes of input into one non-final stored block (only when fewer than `cap` bytes are
-still queued), on `finish` with all input taken queue the final empty block and the Adler-32
-trailer, then hand out at most `cap` queued bytes. -/
+/-- how many bytes of the input one call turns into a block: what fits the output slice next to the zlib header,
+the block header and the end-of-stream marker (16 bytes of framing at most) -/
+def takeN (inp : Bytes) (cap : Nat) : Nat := min inp.length (min MAX_BLOCK (cap - 16))
+
+/-- the call ends the stream: `Finish`, all input taken, a slice that holds the framing -/
+def isFin (inp : Bytes) (cap : Nat) (fl : Flush) : Bool :=
+  decide (fl = .finish) && decide (takeN inp cap = inp.length) && decide (16 ≤ cap)
+
+/-- one call of the stored-block compressor on a stream that has not ended: the zlib header on the first call, up
+to `takeN` bytes of input as ONE non-final stored block (never an empty one), and — on `Finish` with all input taken —
+the final empty block and the Adler-32; everything produced fits the output slice, nothing is queued -/
+def stepOf (s : CState) (inp : Bytes) (cap : Nat) (fl : Flush) : Step CState :=
+  { state := { hdrDone := true, ad := adler s.ad (inp.take (takeN inp cap)), ended := isFin inp cap fl },
+    consumed := takeN inp cap,
+    produced := (if s.hdrDone then [] else [0x78, 0x01]) ++
+      (if takeN inp cap = 0 then [] else blockHeader false (takeN inp cap) ++ inp.take (takeN inp cap)) ++
+      (if isFin inp cap fl then blockHeader true 0 ++ adlerBytes (adler s.ad (inp.take (takeN inp cap))) else []),
+    status := if isFin inp cap fl then .streamEnd
+              else if takeN inp cap = 0 && s.hdrDone then .bufError else .ok }
+
 def compress (s : CState) (inp : Bytes) (cap : Nat) (fl : Flush) : Option (Step CState) :=
   if s.ended then
     (if fl = .finish then some { state := s, consumed := 0, produced := [], status := .streamEnd } else none)
-  else
-    let p0 := if s.hdrDone then s.pending else s.pending ++ [0x78, 0x01]
-    let n := if s.finished || p0.length ≥ cap then 0 else min inp.length MAX_BLOCK
-    let chunk := inp.take n
-    let p1 := if n = 0 then p0 else p0 ++ blockHeader false n ++ chunk
-    let ad := adler s.ad chunk
-    let fin := !s.finished && fl = .finish && n = inp.length
-    let p2 := if fin then p1 ++ blockHeader true 0 ++ adlerBytes ad else p1
-    let finished := s.finished || fin
-    let out := p2.take cap
-    let rest := p2.drop cap
-    let ended := finished && rest.isEmpty
-    some { state := { hdrDone := true, pending := rest, ad := ad, finished := finished, ended := ended },
-           consumed := n, produced := out,
-           status := if ended then .streamEnd else if n = 0 && out.isEmpty then .bufError else .ok }
+  else some (stepOf s inp cap fl)
 
 def compressor : Compressor :=
-  { σ := CState, init := { hdrDone := false, pending := [], ad := (1, 0), finished := false, ended := false },
-    compress := compress }
+  { σ := CState, init := { hdrDone := false, ad := (1, 0), ended := false }, compress := compress }
 
-/-- fuel for `writeInner` with this compressor: every progressing call lowers
-`7 * remaining input + queued + not-yet-queued framing` -/
-def fuelFor (w : Writer CState) (inputLen : Nat) : Nat := 7 * inputLen + w.comp.pending.length + 16
+/-- fuel for `writeInner` with this compressor: every progressing call takes input or emits the header -/
+def fuelFor (_w : Writer CState) (inputLen : Nat) : Nat := inputLen + 3
 
 inductive Phase
   | hdr0 | hdr1 (cmf : UInt8)
